@@ -639,4 +639,98 @@ theorem run_split (ops : List Op) (s : Store) (k : Nat) (op : Op) (h : ops[k]? =
   conv => lhs; rw [hsplit]
   rw [run_append, run_cons]
 
+/-! ## names, `isNamed` and the call frame -/
+
+theorem mainName_ne_nil : mainName ≠ [] := by decide
+
+/-- under compile's naming discipline a code object is outside `namedOK` exactly when it is a
+    named function called `__main__` -/
+theorem nameOK_namedOK (n : Node) (h : nameOK n = true) : namedOK n = !mainFn n := by
+  unfold nameOK at h
+  unfold namedOK mainFn
+  by_cases h1 : n.name = [] <;> by_cases h2 : n.name = mainName <;> cases hn : n.isNamed <;>
+    cases hp : n.parent.isNone <;> simp_all [mainName_ne_nil, bne]
+
+theorem all_namedOK_of_nameOK (l : List Node) (h : ∀ n ∈ l, nameOK n = true) :
+    l.all namedOK = !l.any mainFn := by
+  induction l with
+  | nil => rfl
+  | cons a l ih =>
+    simp only [List.all_cons, List.any_cons]
+    rw [nameOK_namedOK a (h a (by simp)), ih (fun n hn => h n (by simp [hn]))]
+    simp
+
+theorem nameOK_not_labelled (n : Node) (h : nameOK n = true) : labelled n = false := by
+  unfold nameOK at h
+  unfold labelled
+  by_cases h1 : n.name = [] <;> by_cases h2 : n.name = mainName <;> cases hn : n.isNamed <;>
+    cases hp : n.parent.isNone <;> simp_all [mainName_ne_nil, bne]
+
+/-- what `UnmarshalCode ∘ MarshalCode` returns for a well-formed program with valid strings
+    (`C17_unmarshal_total_on_image`): the program with `isNamed` recomputed from the names -/
+def reloadOf (p : Prog) : Prog := { nodes := p.nodes.map renamed, table := p.table }
+
+theorem renamed_isNamed_of_labelled (m : Node) (h : labelled m = true) : (renamed m).isNamed = true := by
+  unfold labelled at h
+  simp only [Bool.and_eq_true] at h
+  show (m.name != [] && m.name != mainName) = true
+  simp [h.1.2, h.2]
+
+theorem renamed_isNamed_le (m : Node) (h : labelled m = false) (f : FuncDef) :
+    initialLocals f (renamed m).isNamed ≤ initialLocals f m.isNamed := by
+  unfold labelled at h
+  show initialLocals f (m.name != [] && m.name != mainName) ≤ _
+  unfold initialLocals
+  cases hn : m.isNamed <;> cases h1 : (m.name != []) <;> cases h2 : (m.name != mainName) <;> simp_all
+
+theorem frames_overflow_of_labelled (p : Prog) (n m : Node) (f : FuncDef) (j : Nat) (t : Table)
+    (hn : n ∈ p.nodes) (hc : Const.fn f (some j) ∈ n.consts) (hm : p.nodes[j]? = some m)
+    (hl : labelled m = true) (ht : findTable p.table m.tableID = some t)
+    (hs : t.symbols.length = f.params.length) : FramesFit (reloadOf p) = false := by
+  cases hff : FramesFit (reloadOf p) with
+  | false => rfl
+  | true =>
+    exfalso
+    unfold FramesFit at hff
+    simp only [List.all_eq_true] at hff
+    have hmem : renamed n ∈ (reloadOf p).nodes := List.mem_map.mpr ⟨n, hn, rfl⟩
+    have h := hff (renamed n) hmem (Const.fn f (some j)) hc
+    have hj : (reloadOf p).nodes[j]? = some (renamed m) := by
+      show (p.nodes.map renamed)[j]? = _
+      simp [List.getElem?_map, hm]
+    have htt : findTable (reloadOf p).table (renamed m).tableID = some t := ht
+    simp only [frameFits, hj, htt, renamed_isNamed_of_labelled m hl, initialLocals, hs] at h
+    simp at h
+    omega
+
+theorem frames_fit_reloadOf (p : Prog) (hl : ∀ n ∈ p.nodes, labelled n = false)
+    (hf : FramesFit p = true) : FramesFit (reloadOf p) = true := by
+  unfold FramesFit at hf ⊢
+  simp only [List.all_eq_true] at hf ⊢
+  intro n' hn' c hc
+  obtain ⟨n, hn, rfl⟩ := List.mem_map.mp hn'
+  have h := hf n hn c hc
+  cases c with
+  | basic b => rfl
+  | fn f code =>
+    cases code with
+    | none => rfl
+    | some j =>
+      have hj : (reloadOf p).nodes[j]? = (p.nodes[j]?).map renamed := by
+        show (p.nodes.map renamed)[j]? = _
+        simp [List.getElem?_map]
+      cases hm : p.nodes[j]? with
+      | none => simp [frameFits, hj, hm]
+      | some m =>
+        have hmm : m ∈ p.nodes := List.mem_of_getElem? hm
+        have htt : findTable (reloadOf p).table (renamed m).tableID = findTable p.table m.tableID := rfl
+        simp only [frameFits, hm] at h
+        simp only [frameFits, hj, hm, Option.map_some, htt]
+        cases ht : findTable p.table m.tableID with
+        | none => rfl
+        | some t =>
+          simp only [ht, decide_eq_true_eq] at h ⊢
+          exact Nat.le_trans (renamed_isNamed_le m (hl m hmm) f) h
+
+
 end Risor.C17
